@@ -36,6 +36,7 @@ pub mod verif {
     use p2panda_store::SqliteStore;
 
     pub use super::acked::Acked;
+    pub use super::ephemeral_stream::verif_wrapped_from_bytes;
     pub use super::sync_metrics::{Aggregator, VerifSyncSummary};
 
     /// Ephemeral stream halves over a given gossip handle and signing key.
